@@ -7,7 +7,7 @@ use crate::c01::{plans, run_hist};
 use crate::hist::*;
 use crate::model::Model;
 use crate::ops::*;
-use crate::report::{Coverage, Reporter, Tier};
+use crate::report::{Coverage, Reporter};
 use crate::util::{catch, msg_class};
 use rayon::prelude::*;
 use serde_json::{json, Value};
@@ -511,7 +511,7 @@ pub fn run(rep: &Reporter) -> Coverage {
         let budget = rep.tier.pick(40.0, 1200.0);
         let mut exhaustive = true;
         for mut plan in plans(rep.tier) {
-            if rep.tier == Tier::Thorough { plan.depth -= 1; }
+            plan.depth -= 1; // ~2000 lookups and four probes per state
             let stats = explore(rep, &oracle, &plan.init, &plan.al, plan.depth, budget);
             cov.states += stats.states;
             cov.transitions += stats.transitions;
